@@ -64,10 +64,24 @@ def cases(draw, tier="quick"):
         if draw(st.booleans()):
             recipe = ["bin", "+", recipe, g.var_leaf()]
     allv = all_var_names(env)
+    if draw(st.integers(0, 9)) == 0 and (env["vectors"] or env["scalars"]):
+        # a non-integer power next to polynomial terms: x ** 1.5 is not a polynomial, whatever int(1.5) suggests
+        k = draw(st.sampled_from([0.5, 1.5, 2.5, 1.5]))
+        if env["vectors"] and draw(st.booleans()):
+            frac = ["vsum", ["vpow", g.pick(g.var_vector_sources(None)), k]]
+        else:
+            frac = ["bin", "**", g.var_leaf(), ["const", "pyfloat", k]]
+        recipe = draw(st.sampled_from([frac, ["bin", "+", frac, g.var_leaf()], ["bin", "-", g.var_leaf(), frac],
+                                       ["bin", "*", ["const", "pyfloat", 2.0], frac]]))
     lines = []
-    for _ in range(3):
-        a = {n: Fraction(draw(st.integers(-6, 6)), draw(st.sampled_from([1, 2, 3]))) for n in allv}
-        b = {n: Fraction(draw(st.integers(-3, 3)), draw(st.sampled_from([1, 2]))) for n in allv}
+    for i_ in range(3):
+        if i_ == 2:
+            # a line inside the positive orthant: sqrt / log / fractional powers stay in their domain along it
+            a = {n: Fraction(draw(st.integers(1, 6)), draw(st.sampled_from([1, 2]))) for n in allv}
+            b = {n: Fraction(draw(st.integers(1, 3)), draw(st.sampled_from([1, 2]))) for n in allv}
+        else:
+            a = {n: Fraction(draw(st.integers(-6, 6)), draw(st.sampled_from([1, 2, 3]))) for n in allv}
+            b = {n: Fraction(draw(st.integers(-3, 3)), draw(st.sampled_from([1, 2]))) for n in allv}
         lines.append((a, b))
     return {"env": env, "expr": recipe, "polyish": polyish,
             "lines": [[{k: [v.numerator, v.denominator] for k, v in a.items()},
